@@ -183,10 +183,18 @@ pub fn scen_satisfy(m: &Model, setup: &Setup, out: &mut Out) {
 pub fn scen_iterate(m: &Model, setup: &Setup, limit: usize, out: &mut Out) {
     let Some(mut built) = build_or_report(m, setup, out) else { return };
     let mut brancher = make_brancher(&setup.bspec, &built.solver, &built.vars.ids);
+    // A quarter of the enumerations are interrupted now and then: the termination condition answers
+    // "stop" at the first poll of some `next_solution` calls (an interrupt arriving between two
+    // solutions) and the caller simply asks again. The solutions handed out must be the same set
+    // (nothing lost, nothing repeated).
+    let mut br = Rng::new(setup.style_seed ^ 0xB0D6E7);
+    let renewable = br.chance(1, 4);
     let mut term = StopAt::never();
+    let armed = term.armed.clone();
     let since = term.since.clone();
     let mut sols: Vec<Vec<i32>> = vec![];
     let mut end = "limit";
+    let mut interruptions = 0u64;
     {
         let mut it = built.solver.get_solution_iterator(&mut brancher, &mut term);
         loop {
@@ -195,6 +203,9 @@ pub fn scen_iterate(m: &Model, setup: &Setup, limit: usize, out: &mut Out) {
             }
             // the poll cap is per solve, not for the whole enumeration
             since.set(0);
+            if renewable && br.chance(1, 2) {
+                armed.set(true);
+            }
             match it.next_solution() {
                 IteratedSolution::Solution(sol, _, _) => match extract(sol.as_reference(), &built.vars) {
                     Some(vs) => sols.push(vs),
@@ -212,12 +223,19 @@ pub fn scen_iterate(m: &Model, setup: &Setup, limit: usize, out: &mut Out) {
                     end = "unsat";
                     break;
                 }
+                IteratedSolution::Unknown if renewable && interruptions < 200_000 => {
+                    interruptions += 1;
+                    continue;
+                }
                 IteratedSolution::Unknown => {
                     end = "unknown";
                     break;
                 }
             }
         }
+    }
+    if renewable {
+        out.meta(format!("iterate with interrupts between solutions: {} interruptions", interruptions));
     }
     let n = m.vars.len();
     let flat: Vec<String> = sols.iter().map(|s| fmt_vals(s)).collect();
